@@ -6,7 +6,10 @@
 (* logged at return).  The inner fits are validated with the Fit protocol  *)
 (* (TraceFit), and on top of it:                                            *)
 (*   Wiring    first fit = conditional fit with the POI fixed at mu (at 0  *)
-(*             for q0, whatever was passed); second fit leaves the POI free *)
+(*             for q0, whatever was passed); second fit leaves the POI free; *)
+(*             BOTH fits hold exactly the parameters the caller holds fixed  *)
+(*             (ts.call.held: index/value pairs of the caller's fixed_params *)
+(*             mask other than the POI), at the caller's values             *)
 (*   Value     result = Stat(kind, muhat, mu, d) EXACTLY, with              *)
 (*             d = fun(first) - fun(second) (floating subtraction done by    *)
 (*             the driver from the two validated objective values), muhat =  *)
@@ -34,6 +37,9 @@ WShim ==
   /\ IF nfit = 0
      THEN \E k \in DOMAIN Ev.fixed_vals : Ev.fixed_vals[k][1] = ts.poi /\ Ev.fixed_vals[k][2] = MuEff
      ELSE ts.poi \notin {Ev.fixed_vals[k][1] : k \in DOMAIN Ev.fixed_vals}
+  \* the caller's own mask reaches both fits: same indices (apart from the POI), same values
+  /\ {Ev.fixed_vals[k][1] : k \in DOMAIN Ev.fixed_vals} \ {ts.poi} = {ts.held[h][1] : h \in DOMAIN ts.held}
+  /\ \A h \in DOMAIN ts.held : \E k \in DOMAIN Ev.fixed_vals : Ev.fixed_vals[k] = ts.held[h]
   /\ UNCHANGED <<ts, nfit, f1, f2, x1, x2>>
 WRaw == TRaw /\ UNCHANGED <<ts, nfit, f1, f2, x1, x2>>
 WReturn ==
